@@ -363,7 +363,7 @@ def c16_replay(case):
             if G is None: return [("C16/other-error", "graph could not be built: %r" % (st,))]
             if "vseed" in case:
                 import writeprops
-                _, G = writeprops.graph_variant(G, random.Random(case["vseed"]), kinds=["as-parsed", "permuted"] if case.get("sweep") else ["as-parsed", "as-parsed", "permuted", "relabelled"])
+                _, G = writeprops.graph_variant(G, random.Random(case["vseed"]), kinds=(["as-parsed"] if case.get("sweep") == "big" else ["as-parsed", "permuted"]) if case.get("sweep") else ["as-parsed", "as-parsed", "permuted", "relabelled"])
             return c16_oracle(G, case["uri"], work)[4]
         finally:
             shutil.rmtree(work, ignore_errors=True)
@@ -426,11 +426,11 @@ def run_c16(ctx):
             import writeprops
             vseed = rng.randrange(2 ** 31)
             # (the grid sweep on the tables as parsed and on a permutation only: with re-labelled rows the recorded finding 'row-labels-as-ids' decides the outcome)
-            variant, G = writeprops.graph_variant(G, random.Random(vseed), kinds=["as-parsed", "as-parsed", "permuted", "relabelled"] if ci >= len(sweep) else ["as-parsed", "permuted"])
+            variant, G = writeprops.graph_variant(G, random.Random(vseed), kinds=["as-parsed", "as-parsed", "permuted", "relabelled"] if ci >= len(sweep) else (["as-parsed"] if ci == big_at else ["as-parsed", "permuted"]))
             impl, gn, dtn, has_col, fails, offenders = c16_oracle(G, g.uris[0], work)
             reqs.append([Sym("c16_validate"), gn, dtn, has_col]); meta.append((ci, impl))
             ctx.record(dict(case=ci, vars=[(str(k[2]), type(d["value"]).__name__, d["datatype"] and d["datatype"][2]) for k, d in vars_.items()]), bool(offenders), ["offenders=%d" % min(len(offenders), 3)])
-            for sig, detail in fails: ctx.fail(sig, dict(kind="docset", files=files, uri=g.uris[0], vseed=vseed, sweep=ci < len(sweep)), detail)
+            for sig, detail in fails: ctx.fail(sig, dict(kind="docset", files=files, uri=g.uris[0], vseed=vseed, sweep=("big" if ci == big_at else ci < len(sweep))), detail)
     finally:
         shutil.rmtree(work, ignore_errors=True)
     ans = vlib.run_model(reqs, shards=8)
